@@ -1,0 +1,25 @@
+//go:build verif
+
+// Contracts for govc (see /verif/DESIGN.md). Comment-only; compiled only with -tags verif.
+
+package textract
+
+//@ property C16
+
+// ==== configuration: verify => construct (C16) ===================================================================================
+// every NAMED capture of the pattern must be a schema field ("every ... capture name ... referenced anywhere in the file is
+// validated at load time")
+//@ pure func cfgok(c *Config, s base.LogSchema) bool := len(c.Key) > 0 && base.hasf(s, key(c.Key)) && compiles(key(c.Pattern))
+//@      && forall i int :: 0 <= i && i < len(subexps(key(c.Pattern))) ==> len(subexps(key(c.Pattern))[i]) == 0 || base.hasf(s, key(subexps(key(c.Pattern))[i]))
+//@ func (c *Config) VerifyConfig(schema base.LogSchema) error
+//@   property C16
+//@   requires c != nil
+//@   modifies nothing
+//@   ensures[accepted-config-is-constructible] result == nil ==> cfgok(c, schema)
+//@   loop 1: invariant -1 <= rangeindex && forall i int :: 0 <= i && i <= rangeindex && i < len(subexps(key(c.Pattern))) ==> len(subexps(key(c.Pattern))[i]) == 0 || base.hasf(schema, key(subexps(key(c.Pattern))[i]))
+//@ func (c *Config) NewTransform(schema base.LogSchema, _ logger.Logger, _ base.LogCustomCounterRegistry) base.LogTransform
+//@   property C16
+//@   requires c != nil && cfgok(c, schema)
+//@   modifies nothing
+//@   ensures  result != nil
+//@   loop 1: invariant -1 <= rangeindex && len(subexpSels) == len(subexps(key(c.Pattern))) && isfresh(subexpSels) && re != nil && repat(re) == key(c.Pattern)
